@@ -365,8 +365,9 @@ let run_iter (c : case) (tc : testcase) (d : Model.n driver) (wdefault : bool) (
            | ItErr (e, st') ->
                if not static then print_calls st.i_log st'.i_log;
                pr "ITEM err %s\n" (ierr_s e);
-               let called = List.length st'.i_log > List.length st.i_log in
-               if c.cont && called then loop st' (k + 1) else pr "END err\n"
+               (* a caller that keeps calling next() after ANY error item (the iterator's state after an
+                  evaluation error is modelled: Stmt.next returns it with NErr) *)
+               if c.cont then loop st' (k + 1) else pr "END err\n"
            | ItRow (row, st') ->
                if not static then print_calls st.i_log st'.i_log;
                if static then
@@ -438,7 +439,7 @@ let run_case (c : case) =
                    run_iter c tc (script_driver tc.tc_signals sc) c.wdefault false
                  end
                  else if c.kind = "static" then begin
-                   if tc.tc_read_outputs <> [] then pr "STATIC err\n"
+                   if tc.tc_read_outputs <> [] then (pr "STATIC err\n"; pr "RNG\n")
                    else begin pr "STATIC ok\n"; run_iter c tc static_driver false true end
                  end))
    | "dig" -> run_dig c
